@@ -11,6 +11,7 @@ import (
 	"os/exec"
 	"path/filepath"
 	"sort"
+	"strconv"
 	"strings"
 	"sync"
 
@@ -135,6 +136,14 @@ func pureOps() []pureOp {
 			op := op
 			oneshots[op.name] = func() string { return observe(op.run()) }
 		}
+		// whole qr.Encode calls explored by C16/S3d (not part of the C15 alphabet)
+		for _, cm := range s3dCases {
+			mode, _ := strconv.Atoi(cm[0])
+			content := cm[1]
+			name := s3dName(0, mode, content)
+			extraFresh = append(extraFresh, name)
+			oneshots[name] = func() string { return observe(qr.Encode(content, qrLevels[0], qrModes[mode])) }
+		}
 	})
 	return pureOpList
 }
@@ -143,6 +152,8 @@ func init() {
 	// make the oneshot names known before flag parsing in main
 	oneshotInit = func() { pureOps() }
 }
+
+var extraFresh []string
 
 var (
 	freshOnce sync.Once
@@ -159,13 +170,17 @@ func freshObservations() (map[string]string, error) {
 			freshErr = err
 			return
 		}
+		var names []string
 		for _, op := range pureOps() {
-			out, err := exec.Command(self, "C15", "--oneshot", op.name).Output()
+			names = append(names, op.name)
+		}
+		for _, name := range append(names, extraFresh...) {
+			out, err := exec.Command(self, "C15", "--oneshot", name).Output()
 			if err != nil {
-				freshErr = fmt.Errorf("fresh process for %s: %v", op.name, err)
+				freshErr = fmt.Errorf("fresh process for %s: %v", name, err)
 				return
 			}
-			freshObs[op.name] = strings.TrimSpace(string(out))
+			freshObs[name] = strings.TrimSpace(string(out))
 		}
 	})
 	return freshObs, freshErr
